@@ -46,6 +46,10 @@ CLAIMED = {
          "Decides that option values cannot influence parsing: every instruction control-dependent on an option-derived branch is logging or unknown-item bookkeeping, option values flow nowhere else, the counters are guarded by exactly the conditions the statement names, and the reports are deferred before parsing and sorted. Holds for all 8 option combinations and all streams because it is a property of the code's dependence structure.",
          "Trusted: post-dominator computation; Logger implementations do not reach back into the decoder. Not decided: counts as numbers on concrete streams; the 'every record completed before the failure' clause.",
          "DESIGN.md 4 C16"),
+ "C13": ("other", "exhaustive evaluation of the record-header guards from SSA over all 256 byte values (cube partition), slot who-may-write/index rules, freshness and byte-order switch rules",
+         "Decides header dispatch and local-type extraction for all 256 header bytes exactly, that a definition is stored only under its own local type, that a missing definition is an error, and that definitions share no storage and carry their own byte order. These are the structural reasons slots are independent; decoded values of interleavings are not computed.",
+         "Trusted: guard transfer functions (& const, >> const, comparisons); dominator tree. Not decided: values decoded from interleaved streams.",
+         "DESIGN.md 4 C13"),
 }
 
 NOT_APPLICABLE = {
